@@ -1,7 +1,7 @@
 -- root of the RSV library: every property module (and through them every model and proof module)
 import RSV.Props.C01all
 import RSV.Props.C02
-import RSV.Props.C03gen
+import RSV.Props.C03
 import RSV.Props.C06
 import RSV.Props.C12
 import RSV.Props.C17
